@@ -614,6 +614,25 @@ def run_group(ctx, g, obj):
 
     definite = [s for s, d in done.items() if d['kind'] == 'result']
     res['secs'] = time.time() - t_start
+    if not definite and g['loopinv'] and not fallback:
+        # the loop-contract proof did not finish (e.g. the loop structure changed so that the invariants sit on the wrong
+        # loops): bounded search without loop contracts for a counterexample that replays on the real code
+        with CPU_SEM:
+            fb, _ = build('h_' + c, noloops=True)
+        if fb is not None:
+            rc, out, dt = run(['cbmc', fb, '--json-ui', '--trace', '--object-bits', '12', '--unwind', '30'] + g['flags'] + SOLVER_ARGS['cadical'],
+                              timeout=300, cwd=ctx.work, mem_kb=MEM_KB)
+            fres, _, fst = parse_cbmc_json(out) if rc in (0, 10) else (None, None, None)
+            ffail = [r for r in (fres or []) if r['status'] == 'FAILURE' and 'postcondition' in (r['property'] or '')]
+            if ffail:
+                res['fallback'] = 'loop-contract proof timed out; bounded run (unwind 30) without loop contracts found a counterexample'
+                res['status'] = 'fail'
+                res['solver'] = 'cadical'
+                res['results'] = [dict(property=r['property'], status=r['status'], description=r['description'], line=r['loc'].get('line'),
+                                       file=r['loc'].get('file'), inputs=trace_inputs(r['trace'])) for r in ffail]
+                res['failed'] = res['results']
+                res['secs'] = time.time() - t_start
+                return res
     if not definite:
         errs = '; '.join('%s: %s' % (s, (d.get('msgs') or [''])[-1][-300:] if d.get('msgs') else d.get('out', '')[-300:]) for s, d in done.items())
         res['reason'] = 'no back end answered within %ds (%s)' % (g['timeout'], errs or 'timeout')
